@@ -127,6 +127,9 @@ pub struct HistCase {
     /// run under RandomPolicy with an unreachable limit
     pub policy_random: bool,
     pub limit: u32,
+    /// Some(L): run under RandomPolicy with memory limit L and an eviction-tolerant model
+    #[serde(default)]
+    pub evict_limit: Option<u64>,
 }
 
 #[derive(Clone, Debug, Serialize, Deserialize, PartialEq, Eq, Hash)]
@@ -420,7 +423,7 @@ pub fn hist_strategy(cfg: &GenCfg) -> BoxedStrategy<HistCase> {
         pct(cfg.policy_random_pct),
         prop::sample::select(limits),
     )
-        .prop_map(|(keys, ops, probe, policy_random, limit)| HistCase { keys, ops, probe, policy_random, limit })
+        .prop_map(|(keys, ops, probe, policy_random, limit)| HistCase { keys, ops, probe, policy_random, limit, evict_limit: None })
         .boxed()
 }
 
@@ -488,6 +491,10 @@ pub struct Interp {
     pub trace: Option<Vec<String>>,
     /// concrete event log (C19 replays it with toggled loudness)
     pub log: Option<Vec<Ev>>,
+    /// clamp resolved value lengths (eviction workloads size records relative to the memory limit)
+    pub max_val: Option<usize>,
+    /// the last executed command and its response
+    pub last: Option<(Cmd, Option<Resp>)>,
 }
 
 #[derive(Clone, Debug)]
@@ -521,11 +528,15 @@ pub fn dedupe_keys(keys: &[KeyHex]) -> Vec<Vec<u8>> {
 
 impl Interp {
     pub fn new(case: &HistCase, owner: Option<&'static str>, trace: bool) -> Interp {
-        let policy = if case.policy_random { Policy::Random(1 << 62) } else { Policy::None };
+        let policy = match case.evict_limit {
+            Some(l) => Policy::Random(l),
+            None if case.policy_random => Policy::Random(1 << 62),
+            None => Policy::None,
+        };
         let l1 = L1::new(policy, case.limit);
         Interp {
             l1,
-            specs: SpecSet::new(case.limit),
+            specs: if case.evict_limit.is_some() { SpecSet::evictable(case.limit) } else { SpecSet::new(case.limit) },
             keys: dedupe_keys(&case.keys),
             pool: HashMap::new(),
             opaque: 0x1000_0000,
@@ -537,6 +548,8 @@ impl Interp {
             owner,
             trace: if trace { Some(vec![]) } else { None },
             log: None,
+            max_val: None,
+            last: None,
         }
     }
 
@@ -588,6 +601,14 @@ impl Interp {
     }
 
     fn resolve_val(&self, key: &[u8], sel: &ValSel, concat: bool) -> Vec<u8> {
+        let mut v = self.resolve_val_raw(key, sel, concat);
+        if let Some(m) = self.max_val {
+            v.truncate(m);
+        }
+        v
+    }
+
+    fn resolve_val_raw(&self, key: &[u8], sel: &ValSel, concat: bool) -> Vec<u8> {
         let limit = self.specs.p().item_limit as usize;
         match sel {
             ValSel::Empty => vec![],
@@ -720,6 +741,7 @@ impl Interp {
             ));
         }
         let pre_live = self.specs.p().presence(&cmd.key);
+        self.last = Some((cmd.clone(), resp.clone()));
         match self.specs.step(cmd, resp.as_ref()) {
             Ok(()) => {}
             Err(mut v) => {
